@@ -2,27 +2,47 @@
 // every layout and view.  Engine E2 (seqx input enumeration).  DESIGN.md 7/C11.
 //
 // Inputs.  EVERY directed multigraph with n <= 3 nodes and m <= 4 edges given
-// as an ORDERED edge list (quick tier: m <= 3), written to a binary .gr file by
-// the harness's own encoder (gr_format.h, versions 1 and 2), for the edge data
-// types void / uint32_t / uint64_t / a 12-byte POD, with the runtime set to
-// T = 1..4 active threads; plus a fixed structured family (paths, stars,
-// cliques, skewed degrees, isolated heads/tails, parallel edges; up to 3000
-// nodes) for the thread-range / division code.  The edge data of edge #i of
-// the list is an injective, non-monotone function of i.
+// as an ORDERED edge list (quick tier: m <= 3; 7381 + 347 = 7728 graphs,
+// quick 910), written to a binary .gr file by the harness's own encoder
+// (gr_format.h, versions 1 and 2), crossed with the edge data types void /
+// uint32_t / uint64_t / a 12-byte POD and T = 1..4 active threads (quick tier:
+// for T >= 3 only void and the POD); plus a fixed structured family (paths,
+// stars, cliques, skewed degrees at the head and at the tail of the node
+// range, isolated heads/tails, parallel edges, a scrambled edge list; up to
+// 3000 nodes) for the thread-range / division code.  The edge data of edge #i
+// of the list is an injective, non-monotone function of i.
+//
+// Subjects.  FileGraph (the reader under every file builder), LC_CSR_Graph,
+// LC_CSR_CSC_Graph, LC_InOut_Graph<LC_CSR_Graph | LC_Linear_Graph>,
+// LC_Linear_Graph, LC_InlineEdge_Graph, LC_Morph_Graph, LC_Adaptor_Graph, with
+// the options numa-blocked / no_lockable / out_of_line_lockable /
+// compressed_node_ptr / in-edge data by value or by reference, built by
+// readGraph(filename), readGraph(FileGraph&), readGraphFromGRFile,
+// readAndConstructBiGraphFromGRFile, constructFrom(vectors),
+// allocateFrom+constructNodes+constructEdge+fixEndEdge, allocateFrom +
+// constructNodesFrom + constructEdgesFrom, createNode+addMultiEdge, and
+// user-supplied arrays (adaptor).
 //
 // Oracle.  An independent reference (c11_common.h): node count; per node the
 // out-edge SEQUENCE in file order for LC_CSR / LC_CSR_CSC / LC_InOut<LC_CSR> /
 // LC_Adaptor-over-CSR (CSR is file order by construction), the out-edge
 // MULTISET for LC_Linear / LC_InlineEdge / LC_Morph (their headers promise no
-// order); in-edges = transposed multiset with the same data; transpose();
-// sort*: sorted permutations of the same multiset; findEdge /
-// findEdgeSortedByDst: exact membership for every (src,dst); degrees; local
-// ranges and unit ranges partition the nodes.
+// order); in-edges = transposed multiset with the same data; transpose() and
+// transpose() twice; sort*: sorted permutations of the same multiset; findEdge
+// / findEdgeSortedByDst: exact membership for every (src,dst); getDegree /
+// getInDegree / prefix sums; local_begin..local_end over all threads, the
+// graph's divideByNode and determineUnitRangesFromGraph partition the nodes.
 //
 // Non-trivial run := the graph has at least two nodes and at least two edges
 // (then per-node order, the CSR prefix sum, the slot claiming of transpose /
 // constructIncomingEdges and the division of nodes among threads all have more
-// than one possible wrong answer).
+// than one possible wrong answer); for the unit-range case additionally at
+// least two units.  The outcome hash is the observed adjacency (+T, +E).
+//
+// Keys are "<layout[<options>]>:<builder or view>:<symptom>".  Operations that
+// are known to kill the process are isolated (own cases, probed in a forked
+// child or with an in-place fault guard, see c11_common.h) so that they are
+// reported under their own key and the worker survives.
 #include "c11_common.h"
 
 using namespace c11;
@@ -1639,44 +1659,72 @@ static const Probe PROBES[] = {
 };
 static const size_t NPROBES = sizeof(PROBES) / sizeof(PROBES[0]);
 
-static std::string compile_probe(const Probe& p) { // "" = compiles
+// All probes are started together on first use (the case has too few inputs
+// for the driver to give it more than one worker) and collected one by one.
+struct ProbeJob {
+  FILE* pipe = nullptr;
+  std::string src;
+  bool done = false;
+  std::string result; // "" = compiles
+};
+static std::vector<ProbeJob>& probe_jobs() {
+  static std::vector<ProbeJob> jobs;
+  if (!jobs.empty())
+    return jobs;
+  jobs.resize(NPROBES);
   const char* repo = getenv("VERIF_REPO");
   std::string R    = repo ? repo : "/repo";
-  char src[256];
-  snprintf(src, sizeof src, "%s/%d-c11-probe.cpp", grf::tmp_dir(),
-           (int)getpid());
-  FILE* f = fopen(src, "w");
-  if (!f)
-    return "cannot write probe source";
-  fputs(p.code, f);
-  fclose(f);
-  std::string cmd =
-      "g++ -std=c++17 -fsyntax-only -w -DGALOIS_USE_SCHED_SETAFFINITY "
-      "-DGALOIS_HAVE_PTHREAD -I/verif/build/gen/include -I" +
-      R + "/libgalois/include -I" + R + "/libsupport/include " + src +
-      " 2>&1";
-  FILE* pp = popen(cmd.c_str(), "r");
-  if (!pp) {
-    unlink(src);
-    return "cannot run g++";
+  for (size_t i = 0; i < NPROBES; ++i) {
+    char src[256];
+    snprintf(src, sizeof src, "%s/%d-c11-probe%zu.cpp", grf::tmp_dir(),
+             (int)getpid(), i);
+    jobs[i].src = src;
+    FILE* f     = fopen(src, "w");
+    if (!f) {
+      jobs[i].done   = true;
+      jobs[i].result = "cannot write probe source";
+      continue;
+    }
+    fputs(PROBES[i].code, f);
+    fclose(f);
+    std::string cmd =
+        "g++ -std=c++17 -fsyntax-only -w -DGALOIS_USE_SCHED_SETAFFINITY "
+        "-DGALOIS_HAVE_PTHREAD -I/verif/build/gen/include -I" +
+        R + "/libgalois/include -I" + R + "/libsupport/include " + src +
+        " 2>&1";
+    jobs[i].pipe = popen(cmd.c_str(), "r");
+    if (!jobs[i].pipe) {
+      jobs[i].done   = true;
+      jobs[i].result = "cannot run g++";
+      unlink(src);
+    }
   }
+  return jobs;
+}
+
+static std::string compile_probe(size_t i) { // "" = compiles
+  ProbeJob& j = probe_jobs()[i];
+  if (j.done)
+    return j.result;
   std::string out, firsterr;
   char line[1024];
-  while (fgets(line, sizeof line, pp)) {
+  while (fgets(line, sizeof line, j.pipe)) {
     if (firsterr.empty() && strstr(line, "error"))
       firsterr = line;
     if (out.size() < 4000)
       out += line;
   }
-  int rc = pclose(pp);
-  unlink(src);
-  if (rc == 0)
-    return "";
-  if (firsterr.empty())
-    firsterr = out.substr(0, 300);
-  while (!firsterr.empty() && firsterr.back() == '\n')
-    firsterr.pop_back();
-  return firsterr;
+  int rc = pclose(j.pipe);
+  unlink(j.src.c_str());
+  j.done = true;
+  if (rc != 0) {
+    if (firsterr.empty())
+      firsterr = out.empty() ? "g++ failed" : out.substr(0, 300);
+    while (!firsterr.empty() && firsterr.back() == '\n')
+      firsterr.pop_back();
+    j.result = firsterr;
+  }
+  return j.result;
 }
 
 static sx::EnumCase probe_case() {
@@ -1685,7 +1733,7 @@ static sx::EnumCase probe_case() {
   c.count = [](bool) { return (uint64_t)NPROBES; };
   c.run   = [](uint64_t idx, bool) {
     const Probe& p  = PROBES[idx];
-    std::string err = compile_probe(p);
+    std::string err = compile_probe((size_t)idx);
     sx::outcome(sx::hash_str(p.what) ^ (err.empty() ? 1 : 2));
     sx::mark_nontrivial();
     if (err.empty())
